@@ -9,7 +9,7 @@ CHECKS = {
          "Every kernel the host can execute (AVX-512, AVX2, SSSE3, portable, via the hook) and the public dispatchers are run over all lengths 0..=320 (+511..513, 1280, 4099), all 64 start offsets, scalars and adversarial contents, and compared byte for byte with an element-wise model built on the polynomial multiplier; the packed binary operand is built by the harness from the documented layout. Thorough tier enumerates all 256 scalars everywhere.",
          "NEON kernels cannot run on this x86-64 host. The dispatch override/entry hooks are trusted to call the kernel they name.",
          "DESIGN.md 5/C11"),
- "C12": ("guard-page placement of kernel operands in a child process + proptest of the slab's paired borrow (address arithmetic) + ASan replay of a generated corpus",
+ "C12": ("guard-page placement of kernel operands in a child process + proptest of the slab's paired borrow (address arithmetic; permutation and arbitrary reorder mappings) + ASan replay of a generated corpus",
          "Dynamic detection on generated inputs: (1) every kernel/op/length with operands flush against PROT_NONE pages (start and end), a fault kills the child and the parent reports the recorded case; (2) generated slab operation sequences: returned slices inside the slab and disjoint, illegal pairs refused, all symbols equal a model; (3) AddressSanitizer builds of the fuzz targets over a generated corpus (driver).",
          "Only executed paths; NEON excluded; aliasing rules beyond address overlap (Stacked/Tree Borrows) are not checked in the quick tier.",
          "DESIGN.md 5/C12"),
@@ -21,7 +21,7 @@ CHECKS = {
          "The harness owns the schedule of the plan cache's two critical sections through the yield hook: all interleavings are enumerated for 2x2, 3x1 and selected 3x2 request shapes (also with the cache at capacity), and generated request histories/schedules (incl. 60-90 distinct sizes to force eviction and re-requests of evicted sizes) are explored; after every critical section the capacity bound, the queue/key bijection and key == plan size are checked, and every encoder is compared (== and packet-wise) with encoders built without the cache. An uncontrolled multi-thread stress run adds the same invariants at the end.",
          "Sound reduction to critical-section granularity assumes all shared state is behind the cache Mutex (true in this tree) and std::sync::Mutex is correct; exhaustive only for the listed small shapes.",
          "DESIGN.md 5/C17"),
- "C07": ("multi-build differential testing over a seeded generated workload (SHA-256 per case and configuration)",
+ "C07": ("multi-build differential testing over a seeded generated workload (SHA-256 per case and configuration) + in-process enumeration of all 477 block sizes through every construction (planned / unplanned / cache / dense / sparse), packets compared",
          "The same generated workload is run in 4 cargo builds (release / debug-assertions+overflow-checks x std / no_std) and, inside the release-std build, under every forced kernel (AVX-512, AVX2, SSSE3, portable, default) x sparse threshold {0, 250, inf} x plan mode {new, new again (cache hit), with_encoding_plan, unplanned}; every configuration must produce the identical digest of packets + decode outcome + decoded bytes for every case (undecodable cases included).",
          "Differential: agreement of all configurations, not absolute correctness (that is C01/C04). NEON and 32-bit x86 cannot run here. The dispatch override hook is trusted.",
          "DESIGN.md 5/C07"),
@@ -41,11 +41,11 @@ CHECKS = {
          "Generated parameter sets built adjacent to every documented limit (and with ceil(F/T) beyond 2^32) are judged by a u128 reference predicate; accept/refuse must agree both ways and accepted values must be echoed. Found and drove the repair of an acceptance beyond the limit.",
          "Sampled search (2e6 quick / 2e8 thorough); domain restricted to positive T, Z, Al as the property states.",
          "DESIGN.md 5/C19"),
- "C01": ("proptest over objects and delivery histories; oracle = original bytes + reference layout",
+ "C01": ("proptest over objects (small, many-block, large) and delivery histories through decode() and add_new_packet()/get_result(); oracle = original bytes + reference layout",
          "Generated objects (all data classes, F mod T, Z, N, Al) and generated delivery histories (subsets, orders, multiplicities, repair ESIs over the whole 24-bit range); after every decode call the answer must be None or exactly the object, Some once all source packets arrived; the same history through per-block decoders. Thorough adds K at the dense/sparse switch, K~1000 and K>=10000.",
          "Sampled; objects bounded (<= a few MB); packets are always encoder output (no corruption claimed).",
          "DESIGN.md 5/C01"),
- "C05": ("proptest + exhaustive small sweep vs. reference layout by index formula",
+ "C05": ("proptest (small and >2^16-symbol objects) + exhaustive small sweep vs. reference layout by index formula",
          "Every source packet's (SBN, ESI, payload) of generated configurations is compared with a reference layout computed by index formula (not via the crate's partition); partition()/calculate_block_offsets() vs reference; the decoder must invert that layout (all source packets; erasures + repair; per-block decoder). Small configurations are swept exhaustively.",
          "Reference layout written from RFC 4.4.1.2; sampled beyond the small exhaustive sweep.",
          "DESIGN.md 5/C05"),
@@ -69,7 +69,7 @@ CHECKS = {
          "3.3e6 (quick) / 6.6e7 (thorough) trials of exactly K+h distinct uniformly drawn symbols are decoded by the real decoder; the failure counts are tested, pooled and per stratum / K-group, against 1e-2, 1e-4, 1e-5. The measured rates (and their ~256x ratios) are reported.",
          "Statistical: only degradations that push the rate above the advertised bound are detected; false-alarm probability < 1e-9 per test.",
          "DESIGN.md 5/C03"),
- "C04": ("proptest differential vs. independent RFC 6330 reference encoder (plain GF(256) elimination); certificate checking for large K; table digests",
+ "C04": ("proptest differential vs. independent RFC 6330 reference encoder (plain GF(256) elimination); certificate checking over all 477 block sizes and further large K; table digests",
          "Generated (K, T, data, construction, ESIs): source packets, intermediate symbols and repair payloads are compared byte for byte with a reference written from the RFC that shares no code with the crate (direct solve up to K'=300 quick / 1500 thorough); for any K up to 56403 the crate's intermediate symbols are certified against all L constraint rows and repair payloads recomputed with the reference Tuple/Enc; V0..V3/Table 2 pinned by SHA-256, Deg checked on all 2^20 inputs.",
          "V0..V3 and Table 2 are trusted as of the pinned commit (no second source offline). Sampled over data/T/ESIs.",
          "DESIGN.md 5/C04"),
